@@ -50,7 +50,7 @@ type tview struct {
 func (tv *tview) add(path []any, kind, format string, a ...any) *unfaithful {
 	u := unfaithful{path: pathKey(path), p: path, kind: kind, what: fmt.Sprintf(format, a...)}
 	k := u.String()
-	if tv.seen[k] || len(tv.out) >= 12 {
+	if tv.seen[k] || len(tv.out) >= 2000 {
 		return &unfaithful{}
 	}
 	tv.seen[k] = true
